@@ -20,6 +20,12 @@ type msgSnap struct {
 	Nil     bool
 }
 
+type keptMsg struct {
+	h     int
+	m     *mqtt.Message
+	after msgSnap
+}
+
 func snapMsg(m *mqtt.Message) msgSnap {
 	return msgSnap{Topic: string([]byte(m.Topic)), ID: m.ID, QoS: m.QoS, Retain: m.Retain, Dup: m.Dup, Payload: append([]byte{}, m.Payload...)}
 }
@@ -42,7 +48,8 @@ func mutateMsg(m *mqtt.Message, how int) {
 		m.Payload[i] ^= 0xA5 // in place: visible through any alias of the backing array
 	}
 	if how&1 != 0 {
-		m.Payload = append(m.Payload, 'X', 'Y') // may write into spare capacity shared with an alias
+		// may write into spare capacity shared with an alias; the bytes depend on the handler
+		m.Payload = append(m.Payload, byte('A'+how>>2), byte('a'+how>>2))
 	}
 	m.Topic = m.Topic + "/mutated"
 	m.ID += 7
@@ -77,7 +84,7 @@ func randMsg(rng *rand.Rand, topics []string) *mqtt.Message {
 	case 1:
 		pl = []byte{}
 	case 2:
-		pl = make([]byte, 1+rng.Intn(8), 64) // spare capacity: append by an aliasing handler would scribble
+		pl = make([]byte, rng.Intn(9), 64) // spare capacity (also with length 0): append by an aliasing handler would scribble
 	case 3:
 		pl = make([]byte, 1000+rng.Intn(3000))
 	default:
@@ -116,6 +123,7 @@ func c20Run(c fw.Case, env *fw.Env) fw.Result {
 			}
 			var mu sync.Mutex
 			var recs []rec
+			var kept []keptMsg
 			var wg sync.WaitGroup
 			cur := 0
 			gates := make([]chan struct{}, 0)
@@ -131,7 +139,11 @@ func c20Run(c fw.Case, env *fw.Env) fw.Result {
 					mu.Lock()
 					recs = append(recs, rec{h, cur, snapMsg(m)})
 					mu.Unlock()
-					mutateMsg(m, how)
+					mutateMsg(m, how|1|h<<2)
+					// the handler keeps its message: what it holds must not change when siblings mutate theirs
+					mu.Lock()
+					kept = append(kept, keptMsg{h, m, snapMsg(m)})
+					mu.Unlock()
 				})
 				if async {
 					nAsync++
@@ -189,6 +201,15 @@ func c20Run(c fw.Case, env *fw.Env) fw.Result {
 						return fail("handler-saw-sibling-mutation", "message %d: handler %d (%s) received %v, original was %v; handlers=%v", mi, rc.h, hf[rc.h], rc.snap, want, hf)
 					}
 				}
+				mu.Unlock()
+				mu.Lock()
+				for _, k := range kept {
+					if now := snapMsg(k.m); !now.eq(k.after) {
+						mu.Unlock()
+						return fail("kept-message-changed-by-sibling", "message %d: what handler %d (%s) kept after its own changes was %v and later became %v: a sibling's change reached it; handlers=%v", mi, k.h, hf[k.h], k.after, now, hf)
+					}
+				}
+				kept = kept[:0]
 				mu.Unlock()
 				if n >= 2 {
 					r.Counters["messages_with_2plus_handlers"]++
@@ -263,7 +284,7 @@ func init() {
 		Level: "exploration",
 		Rule: "seeded random rounds: (mux) ServeMux with 1-6 handlers on overlapping filters, a third of them behind ServeAsync and parked until Serve returned; every handler snapshots what it received and then mutates topic, payload bytes in place, " +
 			"payload slice (append into spare capacity), id and flags; 1-3 messages per mux incl. the same *Message twice and nil/empty/large payloads; (fanout) the same pointer handed to ServeAsync handlers and in-place mutating siblings. " +
-			"Oracle: every snapshot equals the caller's original (resp. the content at the time ServeAsync.Serve was called) and the caller's message is unchanged. Non-trivial: a message that reached >=2 handlers, or an async handler with a mutating sibling.",
+			"Oracle: every snapshot equals the caller's original, what a handler kept after its own changes is not altered by its siblings (resp. the content at the time ServeAsync.Serve was called) and the caller's message is unchanged. Non-trivial: a message that reached >=2 handlers, or an async handler with a mutating sibling.",
 		Assumptions: []string{"handlers mutate only through the pointer they are given"},
 		Gen:         c20Gen,
 		Run:         c20Run,
